@@ -1,5 +1,7 @@
 import L4.Proofs.Conn
 import L4.Router
+import L4.Proofs.Router
+import L4.Gen.Facts
 /-!
 # C01 — Match-and-rewind: handlers read the client's stream exactly once, in order
 
@@ -60,7 +62,7 @@ theorem tee_branch_sees_what_next_reads (log : Bytes) (inner : Src) (ns : List N
 /-- witness kept for the defect repaired by the `fix:` commit on `Connection.Wrap`: with the old `Wrap` (buffer copied while
 the wrapped conn still reads through the old Connection) prefetched bytes are delivered twice -/
 theorem wrapOld_duplicates :
-    ((Src.l4 [1, 2, 3] 0 0 false (.raw [[4]])).wrapOld id).logical = [1, 2, 3, 1, 2, 3, 4] := by
+    ((Src.l4 [1, 2, 3] 0 0 false (.raw [[4]] false)).wrapOld id).logical = [1, 2, 3, 1, 2, 3, 4] := by
   decide
 
 /-! ## composition with the router: handlers of successive routes see consecutive parts of one stream -/
@@ -192,10 +194,73 @@ theorem reading_handler_ok (ns : List Nat) : StreamOk (fun cx => ([], .next (cx.
       have := read_spec cx n hn hw
       exact ih _ this.2.2.1 this.2.2.2
 
+/-! ## bytes that arrive together with the end of the stream
+
+`io.Reader` allows `Read` to return `n > 0` together with an error (a TLS connection hands out the last record
+together with `io.EOF`). `prefetch` keeps those bytes and succeeds; it fails only when the read brought nothing. -/
+
+/-- the rule the model encodes is the rule of the current source (regenerated from `layer4/connection.go`): the only
+`return err` of `prefetch` is guarded by `err != nil && n == 0` -/
+theorem prefetch_source_rule : Gen.fact_prefetch_returns_read_error_only_without_bytes = true := by decide
+
+/-- **Nothing is dropped by a failing prefetch**: when `prefetch` reports a read error, the underlying read returned
+no bytes (so, by `read_spec`, the stream behind the connection is what it was). -/
+theorem prefetch_error_read_nothing (buf : Bytes) (off fr : Nat) (m : Bool) (inner : Src)
+    (hlt : buf.length < Gen.layer4_MaxMatchingBytes) (e : Abort)
+    (h : (Src.l4 buf off fr m inner).prefetch = .error e) :
+    (inner.read Gen.layer4_prefetchChunkSize).1.1 = [] ∧ (inner.read Gen.layer4_prefetchChunkSize).1.2 ≠ .none := by
+  simp only [Src.prefetch, hlt, ↓reduceIte] at h
+  generalize inner.read Gen.layer4_prefetchChunkSize = q at h
+  obtain ⟨⟨d, er⟩, inner'⟩ := q
+  simp only at h
+  split at h
+  · rename_i hc
+    simp only [Bool.and_eq_true, bne_iff_ne, ne_eq, beq_iff_eq, List.length_eq_zero_iff] at hc
+    exact ⟨hc.2, hc.1⟩
+  · cases h
+
+/-- the bytes a read returns together with an error are in the matching buffer after `prefetch` -/
+theorem prefetch_keeps_bytes_with_error (buf : Bytes) (off fr : Nat) (m : Bool) (inner : Src)
+    (hlt : buf.length < Gen.layer4_MaxMatchingBytes)
+    (hd : (inner.read Gen.layer4_prefetchChunkSize).1.1 ≠ []) :
+    (Src.l4 buf off fr m inner).prefetch =
+      .ok (.l4 (buf ++ (inner.read Gen.layer4_prefetchChunkSize).1.1) off fr m (inner.read Gen.layer4_prefetchChunkSize).2) := by
+  simp only [Src.prefetch, hlt, ↓reduceIte]
+  generalize inner.read Gen.layer4_prefetchChunkSize = q at hd
+  obtain ⟨⟨d, er⟩, inner'⟩ := q
+  simp only at hd
+  have : (d.length == 0) = false := by
+    cases d with
+    | nil => exact absurd rfl hd
+    | cons _ _ => rfl
+  simp [this]
+
+/-- the router on the connection operations as they were before the repair of `prefetch` -/
+def srcOpsOld : ConnOps Src where
+  avail := Src.avail
+  prefetch := fun s => match s.prefetchOld with
+    | (.ok _, s') => .ok s'
+    | (.error e, _) => .error e
+  arm := fun _ s => s
+
+/-- one route: needs two bytes to decide, then matches; its handler reads the whole request -/
+def twoByteRoute : List (Route Src) :=
+  [ { sets := [[fun cx => if cx.avail.length < 2 then .more else .yes]], h := fun cx => ([], .next (cx.reads [4]).2) } ]
+
+/-- a two-byte request that the socket delivers together with the end of the stream (`n = 2, io.EOF`) -/
+def shortRequest : Src := .l4 [] 0 0 false (.raw [[7, 9]] true)
+
+/-- **Witness of the repaired defect**: on `shortRequest` the router before the repair gave up without running the
+matching route; the router as it is runs it. -/
+theorem short_request_with_eof_is_routed :
+    runIdx (route srcOps twoByteRoute 8 shortRequest).1 = [0] ∧
+    runIdx (route srcOpsOld twoByteRoute 8 shortRequest).1 = [] := by
+  decide
+
 /-! non-vacuity: a handler that reads 2 bytes respects the stream, and a concrete routed run delivers consecutive parts -/
-example : (Src.l4 [1, 2] 0 0 false (.raw [[3, 4, 5]])).noMatching ∧ (Src.l4 [1, 2] 0 0 false (.raw [[3, 4, 5]])).wf := by
+example : (Src.l4 [1, 2] 0 0 false (.raw [[3, 4, 5]] false)).noMatching ∧ (Src.l4 [1, 2] 0 0 false (.raw [[3, 4, 5]] false)).wf := by
   simp [Src.noMatching, Src.wf]
 
-example : ((Src.l4 [1, 2] 0 0 false (.raw [[3, 4, 5]])).reads [1, 3, 2]).1 = [1, 2, 3, 4] := by decide
+example : ((Src.l4 [1, 2] 0 0 false (.raw [[3, 4, 5]] false)).reads [1, 3, 2]).1 = [1, 2, 3, 4] := by decide
 
 end L4.C01
